@@ -89,6 +89,12 @@ def run(prop, tier, seed):
         log.close()
         if rc != 0 or not os.path.exists(out):
             dead.append((i, rc))
+            try:
+                with open(os.path.join(outdir, f"shard{i}.log")) as lf:
+                    tail = lf.read()[-1500:]
+                sys.stderr.write(f"--- shard {i} exited with {rc}; end of its log:\n{tail}\n")
+            except Exception:
+                pass
     # ---- merge
     merged = {
         "evaluations": 0, "counters": Counter(), "inconclusive": Counter(), "samples": [],
